@@ -787,3 +787,36 @@ __wrap_clock_gettime(clockid_t clk, struct timespec * ts)
 	}
 	return (__real_clock_gettime(clk, ts));
 }
+
+#ifdef SIMK_WRAP_SIGNAL
+/*
+ * signal() succeeds but leaves errno changed, as POSIX allows (builds in
+ * which the library brackets send() with signal(SIGPIPE, ...) calls).
+ */
+#include <signal.h>
+typedef void (* simk_sigh)(int);
+simk_sigh __real_signal(int, simk_sigh);
+simk_sigh __wrap_signal(int, simk_sigh);
+simk_sigh __real___sysv_signal(int, simk_sigh);
+simk_sigh __wrap___sysv_signal(int, simk_sigh);
+
+simk_sigh
+__wrap_signal(int sig, simk_sigh h)
+{
+	simk_sigh r = __real_signal(sig, h);
+
+	if (r != SIG_ERR)
+		errno = ENOTTY;
+	return (r);
+}
+
+simk_sigh
+__wrap___sysv_signal(int sig, simk_sigh h)
+{
+	simk_sigh r = __real___sysv_signal(sig, h);
+
+	if (r != SIG_ERR)
+		errno = ENOTTY;
+	return (r);
+}
+#endif
